@@ -261,7 +261,14 @@ impl RD {
         let mut elems: Vec<String> = t.cols.iter().map(|c| self.column(c)).collect();
         elems.extend(t.indexes.iter().map(|i| self.table_index(i)));
         elems.extend(t.fks.iter().map(|f| self.fk_clause(f)));
-        elems.extend(t.checks.iter().map(|(c, k)| format!("CHECK (({}) > ({k}))", self.id(c))));
+        elems.extend(t.checks.iter().map(|(c, k)| {
+            if *k >= 100 {
+                let i = self.id(c);
+                format!("CHECK (((({i}) > ({})) OR (({i}) < (0))) AND ((({i}) < (1000)) OR (({i}) = ({k}))))", k - 100)
+            } else {
+                format!("CHECK (({}) > ({k}))", self.id(c))
+            }
+        }));
         s.push_str(&format!(" ( {} )", elems.join(", ")));
         if self.d == Dialect::Mysql {
             if let Some(c) = &t.comment {
